@@ -1,6 +1,99 @@
 #![feature(allocator_api)]
 #![allow(non_snake_case)]
-// unit `psdcone` : HEADER PLACEHOLDER (rewritten at the end)
+// unit `psdcone` : everything of cones/psdtrianglecone.rs (feature `sdp`) - the positive semidefinite cone in scaled triangular (svec) form -
+// over ASSUMED stand-ins for the BLAS / LAPACK engine objects (C07, C11, C13, C15 for the PSD cone: index arithmetic and orchestration).
+// float model: float_opaque (every arithmetic operation an uninterpreted symbol) for all function contracts; F-real only in the three Level-2 lemmas.
+//
+// WHAT IS DECIDED HERE.  (a) the INDEX ARITHMETIC between packed svec positions and matrix coordinates (diagonal positions tri(k) + k, the fill order
+// of skron, the packing of get_Hs) is proved, not assumed; (b) the ORCHESTRATION - which engine is called on which operand with which transposition
+// flag, into which work space, in which order, and what happens when an engine fails - is stated as equations between VALUES (`GM`: dimensions +
+// column-major data) over uninterpreted functions `chol_of`, `svd_*`, `eig_of`, `mm` (gemm), `syrk_of`, `syr2k_of`.  A swapped operand, an inverted flag,
+// a wrong source matrix or a swallowed failure changes the term and fails the postcondition.  What is NOT decided: that these terms are the
+// Nesterov-Todd scaling in the mathematical sense (W z = W^-T s = lambda, Hs = W'W) - that needs the linear algebra of Cholesky / SVD, see NOT COVERED.
+//
+// PROVED from the real text (extracted, never retyped; panic-freedom = every index / overflow / assert! obligation, plus the clause given):
+//   PSDConeData::new, PSDTriangleCone::new   n, numel = triangular_number(n), R / Rinv / workmat1-3 n x n, Hs numel x numel, lambda / Lambdaisqrt of
+//                       length n, workvec of length numel, everything zero (`wf`); needs tri(n) < 2^32 (beyond it `size.0 * size.1` of Hs overflows)
+//   degree (= n), numel, is_symmetric (true), is_sparse_expandable (false), allows_primal_dual_scaling (true), Hs_is_diagonal (false)
+//   rectify_equilibration   true, delta_i = (1 / e_i) * mean(e)  ("scalar equilibration", as for every non-separable cone in unit rectify)
+//   margins             z empty: (max_value, 0); else Z = mat(z) in workmat1, eigvals(Z): alpha = minimum(eig_of(mat z)), beta = left fold of
+//                       s + max(e_i, 0) over eig_of(mat z); z itself and the scaling untouched
+//   scaled_unit_shift   alpha is added to exactly the positions tri(a) + a (= triangular_index(a)) of the packed triangle, i.e. to the diagonal
+//                       entries (a, a); every off-diagonal position tri(b) + a, a < b, and everything beyond tri(n) keeps its value
+//   unit_initialization s = z = svec(I): 0 + 1 on the diagonal positions, 0 elsewhere
+//   set_identity_scaling  R = Rinv = Hs = I entry for entry (through the real Matrix::set_identity), lambda untouched
+//   update_scaling      empty s: true, nothing changed.  Else S = mat(s), Z = mat(z) (workmat1, workmat2); chol1.factor(S), chol2.factor(Z);
+//                       result == (chol_ok(mat s) && chol_ok(mat z)); on false R, Rinv, Hs, lambda, Lambdaisqrt are EXACTLY as before (no half-updated
+//                       scaling); on true (nt_scaled): M = gemm(1, L2', L1, 0) [L1 = chol_of(mat s), L2 = chol_of(mat z)], SVD(M) succeeded (else the
+//                       documented panic `expect("SVD error")` = divergence), lambda = svd_s(M), Lambdaisqrt_i = 1 / sqrt(lambda_i),
+//                       R = gemm(1, L1, Vt', 0) with column b scaled by Lambdaisqrt_b, Rinv = gemm(1, U', L2', 0) with row a scaled by Lambdaisqrt_a,
+//                       RRt = syrk(1, R, 0) on a zeroed workmat1, Hs upper triangle = skron(sym(RRt)), lower triangle of Hs untouched
+//   skron               out[tri(j) + i, tri(l) + k] for i <= j, k <= l, row <= col:  A_ik A_jl + A_il A_jk  (i != j, k != l),  sqrt2 A_jl A_jk  (i == j, k != l),
+//                       sqrt2 A_il A_jk  (i != j, k == l),  A_jl A_jl  (i == j, k == l); A read through its upper triangle; the `break` logic of the row
+//                       counter (row = min(tri(j) + i, col + 1)); the lower triangle of `out` is never written
+//   get_Hs              Hsblock[tri(b) + a] = Hs[a, b], a <= b < numel (through the real Symmetric::pack_triu)
+//   mul_Wx_inner, mul_W (Rx = R), mul_Winv (Rx = Rinv)   X = mat(x), Y = mat(y); flag T: tmp = gemm(1, X, Rx', 0), Y = gemm(alpha, Rx, tmp, beta);
+//                       flag N: tmp = gemm(1, Rx', X, 0), Y = gemm(alpha, tmp, Rx, beta); y = svec(Y); nothing beyond tri(n) written (is_mulW)
+//   mul_Hs              work = mul_W(N, x), y = mul_W(T, work)   (alpha = 1, beta = 0)
+//   affine_ds           lambda_a * lambda_a on the diagonal positions, 0 elsewhere
+//   circ_op             X = 0, syr2k(mat y, mat z, 0.5, 0), x = svec of the symmetric view of X (is_circ); inv_circ_op: unreachable!() = never returns
+//   lambda_inv_circ_op  X_ij = (2 * Z_ij) / (lambda_i + lambda_j) for every (i, j), x = svec(X) (is_linv)
+//   combined_ds_shift   through the real SymmetricConeUtils::_combined_ds_shift_symmetric at C = PSDTriangleCone: step_z <- mul_W(N, step_z),
+//                       step_s <- mul_Winv(T, step_s), shift = step_s o step_z with -sigma*mu added on the diagonal positions only
+//   Delta_s_from_Delta_z_offset   through the real _Delta_s_from_Delta_z_offset_symmetric: work = lambda \ ds, out = mul_W(T, work)
+//   step_length, step_length_psd_component   d = mul_W(N, dz) resp. mul_Winv(T, ds) into workvec; gamma = max_value for an empty d, else
+//                       minimum(eig_of(Lambda^-1/2 mat(d) Lambda^-1/2)); result = min(-1 / gamma, alphamax) if gamma < 0 else alphamax
+//   compute_barrier, logdet_barrier   0 - lb(z, dz) - lb(s, ds),  lb(x, dx) = logdet of chol_of(mat(1 * x + alpha * dx)) if that factorisation succeeds,
+//                       +infinity otherwise (SEE OBSERVATION)
+//   dense support, new here: Matrix::t, sym (debug_assert dropped), set_identity, Symmetric::pack_triu, ShapedMatrix::shape of Matrix / Adjoint /
+//                       Symmetric (the flag that reaches BLAS), CholeskyEngine::new, CholeskyEngine::logdet (2 * left fold of ln L_ii);
+//                       SECOND COPIES of unit dense_math / scalarmath with the same contracts (a Verus unit is one file): index_linear, data, data_mut,
+//                       index, index_mut, col_slice_mut, size, nrows / ncols / is_square, Adjoint / Symmetric index + size, Matrix::new / zeros,
+//                       lscale, rscale, lrscale, svec_to_mat, mat_to_svec, triangular_number, triangular_index
+//   Level 2 (F-real):   lemma_unit_shift_margin (the postcondition of scaled_unit_shift + HYPOTHESIS eig(A + al I) = eig(A) + al  ==>  every eigenvalue of
+//                       mat(z), hence the margin, rises by alpha), lemma_unit_init_margin (postcondition of unit_initialization + HYPOTHESIS eig(I) = 1
+//                       ==> every eigenvalue of mat(s) is 1), lemma_affine_ds_real (mat(affine_ds) = diag(lambda_a^2))
+// ASSUMED (hand-written stand-ins, bodies not verified):
+//   * CholeskyEngine::factor(A): Ok <=> A.size == L.size && chol_ok(A); on Ok L == chol_of(A); A and L keep their shapes (contents of A unspecified
+//     afterwards, contents of L unspecified on failure).  SVDEngine::new / factor(A): Ok <=> U.nrows == A.nrows && Vt.ncols == A.ncols && svd_ok(A); on Ok
+//     s == svd_s(A), U == svd_U(A), Vt == svd_Vt(A); A destroyed.  EigEngine::new / eigvals(A): Ok <=> A square of order len(lambda) && eig_ok(A); on Ok
+//     lambda == eig_of(A); A destroyed.  All of these are functions of the VALUE of A (dimensions + data) only.
+//   * Matrix::mul(A, B, alpha, beta) [gemm]: requires the dimension assert!; self == mm(alpha, A.shape, A.data, B.shape, B.data, beta, C) with C = old self,
+//     or the zero matrix when beta == 0 (BLAS: "C need not be set on input").  syrk(A, alpha, beta): self == syrk_of(alpha, A.shape, A.data, beta, old self),
+//     lower triangle untouched.  syr2k(A, B, alpha, beta): self == syr2k_of(alpha, A, B, beta, old self), lower triangle untouched.  The real `mul`
+//     returns `&Self`; the stand-in returns nothing (every caller discards the result).
+//   * `expect(..)` on an engine result (rule R13e -> expect_or_panic, `ensures` only): the documented panic is modelled as divergence, so the code
+//     after it is verified under "the engine reported success".  `unreachable_panic` (rule unreach) does not return.
+//   * VectorMath (prelude/vecmath_assumed.rs: copy_from, set, recip, scale, mean, minimum, waxpby - proved in unit vecmath) and `sqrt` (declared here,
+//     proved with this contract in unit vecmath_more); `<[T]>::fill`, AsRef / AsMut of Vec (std); num_traits `ln`, `SQRT_2` (symbols f_ln, f_sqrt2).
+//   * CoreSettings stand-in (never read).  F-real axioms (prelude/float_real_axioms.rs) in the Level-2 lemmas only; their eigenvalue facts are explicit
+//     hypotheses (`eig_shift_hyp`, `eig_ident_hyp`), not axioms.
+// PRECONDITIONS and the call sites: every vector argument has numel() entries (CompositeCone hands each cone its own slices: unit composite); the
+//   functions that only need "at least tri(n)" say so.  `wf` (shapes of all members) is established by `new` and preserved by every method.
+// DROPPED / NOT COVERED:
+//   * the engine bodies (blas/*.rs: dimension checks, triangle copy, workspace queries, LAPACK calls) - ASSUMED above; CholeskyEngine::solve,
+//     SVDEngine::solve, resize (not used by the cone);
+//   * `debug_assert!(self.is_triu())` in Matrix::sym (release semantics; update_scaling / circ_op zero the work matrix first, which the contracts record);
+//   * C13 in the mathematical sense for the PSD cone: W z = W^-T s = lambda, (W'W) z = s, mul_W / mul_Winv mutually inverse, get_Hs block == mul_Hs
+//     operator, lambda o lambda = affine_ds as Jordan product, skron(A) = the matrix of X -> A X A on svec - all need the algebra of Cholesky / SVD /
+//     gemm on real matrices (sums over k), which the uninterpreted engine symbols do not carry.  What IS decided is that the code computes the documented
+//     expressions (code comments) operand for operand.
+// OBSERVATION (not a finding: not replayable here without BLAS / LAPACK): logdet_barrier returns +infinity when the Cholesky factorisation of the shifted
+//   point fails and compute_barrier SUBTRACTS it, so the barrier of a point outside the PSD cone is -infinity - "best possible" for
+//   `backtrack_step_to_barrier` (accepts when barrier < 1) - whereas the nonnegative and second-order cones yield +infinity there (logsafe = -inf,
+//   subtracted).  Reachable only for problems mixing PSD with nonsymmetric cones, and only if rounding pushes the already step-length-limited point
+//   out of the cone.  The contract states what the code does (lb_val).
+// MUTATION ROUND (scratch copy, one wrong edit of the real text at a time, 94 edits): 90 realistic ones (diagonal position k instead of
+//   triangular_index(k), alpha on every entry, off-diagonal ones in unit_initialization, largest eigenvalue in margins / step length, each of the
+//   Cholesky / SVD / eigenvalue failures ignored or swallowed, R written before the failure check, every operand / flag / scaling side of the six
+//   engine calls of update_scaling, inverted flag / swapped branches / swapped alpha-beta in mul_Wx_inner, wrong R in mul_W / step_length, sign / min-max /
+//   minus of the step-length comparison, pack_triu order, five skron edits incl. sqrt2 on the wrong entries and the break test, barrier signs, ...)
+//   each fail a named obligation of the edited function.  Survivors: the 3 of the 4 deliberately EQUIVALENT edits that only move scratch space
+//   (workmat3 as SVD scratch, workmat2 as eigenvalue scratch, the unused load of X in lambda_inv_circ_op) - as they should.  Strict alarms: dropping
+//   the zeroing of the work matrix before syrk / syr2k fails although it is harmless in release builds (it is what `debug_assert!(is_triu)` in
+//   `sym()` checks); gamma = 0 instead of max_value for an empty direction fails although the result is alphamax either way (the contract fixes the
+//   sentinel; comparisons are uninterpreted).
+// Stability: 5 Z3 seeds, all green; heaviest function skron ~4.3 M rlimit units (< 3 % of --rlimit 50), whole unit ~22 s.
 use vstd::prelude::*;
 verus! {
 global size_of usize == 8;
